@@ -238,4 +238,30 @@ example : (run MG.new [.inc 0 1, .inc 1 2]).deepDependsOn 0 2 = .ok true ∧
 example : step (run MG.new [.inc 1 0, .inc 0 2, .add 2, .rename 1 2]) .sort =
     (run MG.new [.inc 1 0, .inc 0 2, .add 2, .rename 1 2], .sortErr .cycle) := by decide
 
+/-- the hypotheses of the tsort theorems are satisfiable by a non-trivial graph: `[0 → 1, 1]` is duplicate-free,
+    closed and acyclic, so it is sorted, and the result lists 1 before 0 -/
+example : ∃ g', tsort [⟨0, [1]⟩, ⟨1, []⟩] = .ok g' ∧ g'.Perm [⟨0, [1]⟩, ⟨1, []⟩] ∧ DepsFirst g' := by
+  have hnd : (([⟨0, [1]⟩, ⟨1, []⟩] : List Node).map (·.id)).Nodup := by decide
+  have hcl : GClosed [⟨0, [1]⟩, ⟨1, []⟩] := by
+    intro n hn d hd
+    simp at hn
+    rcases hn with rfl | rfl
+    · simp at hd; subst hd; exact ⟨⟨1, []⟩, by simp, rfl⟩
+    · simp at hd
+  have hge : ∀ a b, GE [⟨0, [1]⟩, ⟨1, []⟩] a b → a = 0 ∧ b = 1 := by
+    rintro a b ⟨n, hn, hb⟩
+    obtain ⟨hm, hid⟩ := look_some hn
+    simp at hm
+    rcases hm with rfl | rfl
+    · simp at hb; exact ⟨hid.symm, hb⟩
+    · simp at hb
+  have hr : ∀ a b, GR1 [⟨0, [1]⟩, ⟨1, []⟩] a b → a = 0 ∧ b = 1 := by
+    intro a b r
+    induction r with
+    | edge e => exact hge _ _ e
+    | step e _ ih => exact ⟨(hge _ _ e).1, ih.2⟩
+  have hac : GAcyclic [⟨0, [1]⟩, ⟨1, []⟩] := fun x r => absurd ((hr x x r).1.symm.trans (hr x x r).2) (by decide)
+  obtain ⟨g', hg'⟩ := (tsort_complete _ hnd hcl).2.mpr hac
+  exact ⟨g', hg', tsort_sound _ g' hnd hg'⟩
+
 end ErgVerif.C21
